@@ -14,6 +14,7 @@ import (
 
 type srcCount struct {
 	pulls, probes int
+	since         int // probes since the last pull (a probe in flight counts)
 	limit         int // > 0: trip when more than limit elements are pulled (unbounded sources)
 	limitHit      bool
 }
@@ -23,6 +24,7 @@ func counted(e *env, c *srcCount, it fp.Iterator[int]) fp.Iterator[int] {
 	return fp.MakeIterator(func() bool {
 		e.tick()
 		c.probes++
+		c.since++
 		return it.HasNext()
 	}, func() int {
 		e.tick()
@@ -32,6 +34,7 @@ func counted(e *env, c *srcCount, it fp.Iterator[int]) fp.Iterator[int] {
 			panic(tripped{})
 		}
 		v := it.Next()
+		c.since = 0
 		c.pulls++
 		return v
 	})
@@ -187,6 +190,7 @@ type iterm struct {
 	ref          func(in []int) string
 	run          func(e *env, cb *int, it fp.Iterator[int]) string
 	shortCircuit bool
+	look         int // documented look-ahead in elements of its input (see istage.look)
 }
 
 type ipipe struct {
@@ -263,6 +267,10 @@ func consume(it fp.Iterator[int], out []int, d int, h bool) string {
 type irunResult struct {
 	f        *finding
 	srcPulls int
+	// inDemand[i]: what consumer i (stage i, terminal for i == k) asked of its input, in
+	// half steps 2*pulls + (1 if a HasNext followed the last pull); calls in flight count.
+	// Filled for i == 0 always, for i > 0 in wrapped mode.
+	inDemand []int
 	spun     bool // the run did not return on an unbounded source (judged per stage in wrapped mode)
 }
 
@@ -299,7 +307,20 @@ func (p *ipipe) run(x *mc.X, sk isrcKind, data []int, outs [][]int, d int, h boo
 			wrong = consume(it, final, d, h)
 		}
 	})
-	res := irunResult{srcPulls: sc.pulls}
+	res := irunResult{srcPulls: sc.pulls, inDemand: make([]int, k+1)}
+	res.inDemand[0] = 2 * sc.pulls
+	if sc.since > 0 {
+		res.inDemand[0]++
+	}
+	for i := 1; i <= k; i++ {
+		if taps[i-1] != nil {
+			dd, hh := taps[i-1].demand()
+			res.inDemand[i] = 2 * dd
+			if hh {
+				res.inDemand[i]++
+			}
+		}
+	}
 	nCons := k
 	if p.term != nil {
 		nCons = k + 1
@@ -477,6 +498,11 @@ func (p *ipipe) check(x *mc.X, sk isrcKind, data []int, outs [][]int, d int, h b
 		}
 	} else {
 		f = wr.f
+	}
+	if f == nil && sk.unbounded {
+		if ef := p.e2eCheck(x, sk, data, outs, d, h, dr, func() irunResult { return wr }); ef != nil {
+			p.failE2E(x, ef, sk, data, d, h)
+		}
 	}
 	if f == nil && dr.spun != wr.spun {
 		f = &finding{what: "unbounded-direct-only", msg: fmt.Sprintf("on the unbounded source the pipeline as written returned=%v but with pass-throughs between the stages returned=%v", !dr.spun, !wr.spun)}
